@@ -67,6 +67,10 @@ def copy_repo(dst):
     )
     if rc != 0:
         raise Undecided("rsync of %s failed: %s" % (REPO, out))
+    # Cargo.lock is git-ignored in unimock: a scratch worktree has none; pin the dependency versions of /repo
+    lock = os.path.join(dst, "Cargo.lock")
+    if not os.path.exists(lock) and os.path.exists("/repo/Cargo.lock"):
+        shutil.copy("/repo/Cargo.lock", lock)
 
 
 def read_known_findings():
